@@ -30,7 +30,7 @@ SCHED_FILES := ringbuffer.c ringbuffer_helper.c array.c
 SCHED_COV := -fsanitize-coverage=edge,trace-pc-guard,trace-loads,trace-stores
 
 LIBOBJ := $(addprefix $(B)/lib/,$(LIBSRC:.c=.o))
-HDRS := $(wildcard $(VERIF)/harness/*.inc $(REPO)/include/*.h $(REPO)/include/qb/*.h $(REPO)/lib/*.h $(VERIF)/engine/*.h $(VERIF)/harness/*.h)
+HDRS := $(wildcard $(REPO)/include/*.h $(REPO)/include/qb/*.h $(REPO)/lib/*.h $(VERIF)/engine/*.h)
 
 .PHONY: lib all
 lib: $(B)/libqb.a
@@ -47,11 +47,12 @@ $(B)/engine/%.o: $(VERIF)/engine/%.c $(HDRS)
 	@mkdir -p $(dir $@)
 	$(CC) $(CFLAGS) -c $< -o $@
 
-$(B)/harness/%.o: $(VERIF)/harness/%.c $(HDRS)
+HHDRS := $(wildcard $(VERIF)/harness/*.inc $(VERIF)/harness/*.h)
+$(B)/harness/%.o: $(VERIF)/harness/%.c $(HDRS) $(HHDRS)
 	@mkdir -p $(dir $@)
 	$(CC) $(CFLAGS) -c $< -o $@
 
-$(B)/harness/%.o: $(VERIF)/harness/%.cc $(HDRS)
+$(B)/harness/%.o: $(VERIF)/harness/%.cc $(HDRS) $(HHDRS)
 	@mkdir -p $(dir $@)
 	$(CXX) -std=gnu++17 $(CFLAGS) -c $< -o $@
 
@@ -64,6 +65,9 @@ LDX_c07 :=
 WRAP_RANDOM := -Wl,--wrap=random,--wrap=srandom,--wrap=rand,--wrap=srand
 EXTRA_c20 := wrap_random.o
 LDX_c20 := $(WRAP_RANDOM)
+WRAP_SCHED := -Wl,--wrap=pthread_spin_lock,--wrap=pthread_spin_unlock,--wrap=sem_post,--wrap=sem_trywait,--wrap=sem_wait,--wrap=sem_timedwait,--wrap=sem_getvalue
+EXTRA_c19c := vsched.o
+LDX_c19c := $(WRAP_SCHED)
 EXTRA_c17 := wrap_random.o
 LDX_c17 := $(WRAP_RANDOM)
 EXTRA_c18 := wrap_random.o
@@ -78,7 +82,7 @@ $(1): $(B)/$(1)
 ALL += $(B)/$(1)
 endef
 
-HARNESS_SRCS := $(wildcard $(VERIF)/harness/c[0-9][0-9]_*.c $(VERIF)/harness/c[0-9][0-9]_*.cc)
+HARNESS_SRCS := $(wildcard $(VERIF)/harness/c[0-9][0-9]*_*.c $(VERIF)/harness/c[0-9][0-9]*_*.cc)
 $(foreach s,$(HARNESS_SRCS),$(eval $(call HARNESS_RULE,$(word 1,$(subst _, ,$(basename $(notdir $(s))))),$(basename $(notdir $(s))))))
 
 all: $(ALL)
